@@ -15,8 +15,8 @@ ASSUMPTIONS = ['regions have unique ids; outlines have at least 3 points, except
                'termination is decided as bounded progress: traced line events inside the sorter modules stay below STEP_BUDGET(n); a hang inside a binary dependency would show as the wall-clock watchdog (inconclusive)',
                'geometry tolerance: boundaries within 1e-6 px of each other (Hausdorff distance) and equal area (de-skew rotates there and back in float64); GEOS overlay operations are not used because they are unreliable for nearly coincident polygons']
 N = {'quick': 1500, 'thorough': 60000}
-CLASSES = ['grid', 'columns', 'overlap', 'identical', 'degenerate', 'poly', 'nested', 'empty_or_single', 'overlap_slanted', 'grid_slanted', 'line_outline']
-REQUIRED = ['line_ids:none', 'line_ids:repeated', 'pages_with_a_one_or_two_point_outline', 'smart_runs', 'naive_runs', 'deskewed_pages', 'decouple_calls', 'regions_compared']
+CLASSES = ['grid', 'columns', 'overlap', 'identical', 'degenerate', 'poly', 'nested', 'empty_or_single', 'overlap_slanted', 'grid_slanted', 'line_outline', 'many_overlapping']
+REQUIRED = ['layouts_without_a_page_size', 'pages_of_more_than_1000_regions', 'pages_of_marginalia_only', 'line_ids:none', 'line_ids:repeated', 'pages_with_a_one_or_two_point_outline', 'smart_runs', 'naive_runs', 'deskewed_pages', 'decouple_calls', 'regions_compared']
 
 
 def STEP_BUDGET(n):
@@ -54,9 +54,15 @@ def gen(rng, i, ctx):
     if cls == 'empty_or_single':
         n = int(rng.integers(0, 2))
     slanted = (cls.endswith('slanted') or rng.random() < 0.2) and cls != 'line_outline'
+    if cls == 'many_overlapping':
+        # more than a thousand regions that all overlap each other (a page of stacked stamps / table cells); one in eight, otherwise 20-60 of them
+        n = int(rng.choice([1050, 1200])) if (i // len(CLASSES)) % 8 == 0 else int(rng.integers(20, 60))
+        slanted = False
     regs = []
     for k in range(n):
-        if cls.startswith('grid'):
+        if cls == 'many_overlapping':
+            poly = box(10 + k, 10 + k, 1200, 1500)
+        elif cls.startswith('grid'):
             c, r = k % 3, k // 3
             poly = box(100 + c * 400 + int(rng.integers(0, 20)), 100 + r * 380 + int(rng.integers(0, 20)), 350, 330)
         elif cls == 'columns':
@@ -84,13 +90,19 @@ def gen(rng, i, ctx):
             by = y0 + 20 + l * 30
             lines.append({'id': 'r%03d-l%d' % (k, l), 'baseline': [[x0 + 5, by], [x0 + w - 5, by + slope * w]],
                           'polygon': [[x0 + 5, by - 15], [x0 + w - 5, by - 15 + slope * w], [x0 + w - 5, by + 5 + slope * w], [x0 + 5, by + 5]]})
-        regs.append({'id': 'r%03d' % k, 'polygon': poly, 'text': 'T%d' % k, 'lines': lines})
+        regs.append({'id': 'r%03d' % k, 'polygon': poly, 'text': 'T%d' % k, 'lines': lines if cls != 'many_overlapping' else []})
     if cls == 'line_outline' and n >= 2:
         # one region is a rule / a stray mark given by its two end points or by one point (valid PAGE XML Coords); no skew on these pages
         k = int(rng.integers(0, n))
         x, y = int(rng.integers(50, 1200)), int(rng.integers(50, 1800))
         regs[k]['polygon'] = [[x, y], [x + int(rng.integers(0, 300)), y + int(rng.integers(0, 40))]] if rng.random() < 0.7 else [[x, y]]
         regs[k]['lines'] = []
+    # region types: most regions have none; running heads, footers and page numbers occur, also on pages with (almost) nothing else
+    tmode = int(rng.integers(0, 4))
+    for r in regs:
+        r['type'] = None if tmode == 0 else str(rng.choice(['paragraph', 'heading', 'header', 'footer', 'page-number'] if tmode == 1 else ['header', 'footer', 'page-number']))
+    if tmode == 3 and regs:
+        regs[0]['type'] = 'paragraph'
     # drawn last: how the lines are identified - unique ids, no ids at all (lines imported from ALTO have none), or the same id for all lines of a region
     scheme = str(rng.choice(['unique', 'unique', 'none', 'repeated']))
     for r in regs:
@@ -108,10 +120,11 @@ def describe(case):
 
 
 def build(L, case):
-    pl = L.PageLayout(id='p', page_size=(2000, 1500))
+    # a layout whose page size was never set (the constructor default) or is stale: the sorters are given the image
+    pl = L.PageLayout(id='p', page_size=(2000, 1500)) if len(case['regions']) % 4 else (L.PageLayout(id='p') if len(case['regions']) % 8 else L.PageLayout(id='p', page_size=(3, 2)))
     dt = np.int64 if case['int_coords'] else np.float64
     for r in case['regions']:
-        reg = L.RegionLayout(r['id'], np.array(r['polygon']).astype(dt))
+        reg = L.RegionLayout(r['id'], np.array(r['polygon']).astype(dt), region_type=r.get('type'))
         reg.transcription = r['text']
         for l in r['lines']:
             reg.lines.append(L.TextLine(id=l['id'], baseline=np.array(l['baseline'], dtype=np.float64), polygon=np.array(l['polygon'], dtype=np.float64),
@@ -193,6 +206,12 @@ def check(case, mon, ctx):
         ids = [r.id for r in out.regions]
         mon.observe('order ' + name, ids)
         mon.count('line_ids:' + case.get('line_ids', 'unique'))
+        if n > 1000:
+            mon.count('pages_of_more_than_1000_regions')
+        if tuple(pl.page_size) != (2000, 1500):
+            mon.count('layouts_without_a_page_size')
+        if n >= 2 and sum(1 for r in case['regions'] if r.get('type') not in ('header', 'footer', 'page-number')) <= 1:
+            mon.count('pages_of_marginalia_only')
         if any(len(r['polygon']) < 3 for r in case['regions']):
             mon.count('pages_with_a_one_or_two_point_outline')
         if sorted(ids) != sorted(before) or len(ids) != len(before):
